@@ -23,7 +23,7 @@ def check(ctx, src):
     ctx.require(f is not None, f"{FN} not found")
     # --- tags
     lp = comp.rm.toplevel_assign("loopers")
-    ctx.require(lp is not None, "loopers grammar not found")
+    ctx.need(lp is not None, "loopers grammar not found")
     tags = sorted(c.args[0].value for c in ast.walk(lp) if isinstance(c, ast.Call) and dotted(c.func) == "tag" and c.args and isinstance(c.args[0], ast.Constant))
     ctx.check(tags == ["afor", "do", "for", "if", "setv"], "COMP-TAGS", f"{R}|loopers|tags", f"grammar tags are {tags}", R, lp.lineno, detail=str(tags))
     order = [c.args[0].value for c in ast.walk(lp) if isinstance(c, ast.Call) and dotted(c.func) == "tag" and c.args and isinstance(c.args[0], ast.Constant)]
@@ -32,7 +32,7 @@ def check(ctx, src):
     ctx.check(alts.index("tag('for', FORM + FORM)") > max(alts.index("tag('setv'"), alts.index("tag('if'"), alts.index("tag('do'"), alts.index("tag('afor'")), "COMP-TAGS", f"{R}|loopers|generic clause last",
               "the generic `TARGET ITERABLE` alternative must come after the keyword clauses, or `:if x` is read as an iteration", R, lp.lineno, detail="for alternative last")
     g = next((n for n in ast.walk(f) if isinstance(n, ast.FunctionDef) and n.name == "f"), None)
-    ctx.require(g is not None, "generator-function strategy `f` not found")
+    ctx.need(g is not None, "generator-function strategy `f` not found")
     handled = set()
     for n in ast.walk(g):
         if isinstance(n, ast.If) and norm(n.test).startswith("tagname"):
@@ -40,7 +40,7 @@ def check(ctx, src):
     ctx.check(handled == {"for", "afor", "setv", "if", "do"}, "COMP-TAGS", f"{R}|{FN}.f|tags handled", f"the function strategy handles {sorted(handled)}", R, g.lineno,
               witness="a clause kind raises ValueError('can't happen') -> internal compiler error", detail=str(sorted(handled)))
     nat = next((n for n in f.body[-1].body if isinstance(n, ast.For) and norm(n.iter) == "parts" and norm(n.target) == "(tagname, v)"), None) if isinstance(f.body[-1], ast.With) else None
-    ctx.require(nat is not None, "native strategy loop not found")
+    ctx.need(nat is not None, "native strategy loop not found")
     nh = set()
     for n in ast.walk(nat):
         if isinstance(n, ast.If) and norm(n.test).startswith("tagname"):
@@ -48,7 +48,7 @@ def check(ctx, src):
     ctx.check(nh == {"for", "afor", "setv", "if"}, "COMP-TAGS", f"{R}|{FN}|native tags handled", f"the native strategy handles {sorted(nh)}", R, nat.lineno, detail=str(sorted(nh)))
     # --- strategy guard
     guard = next((n for n in f.body[-1].body if isinstance(n, ast.If) and "is_for" in norm(n.test) and "elt" in flat(n.test)), None)
-    ctx.require(guard is not None, "strategy condition not found")
+    ctx.need(guard is not None, "strategy condition not found")
     disj = [flat(v) for v in guard.test.values] if isinstance(guard.test, ast.BoolOp) and isinstance(guard.test.op, ast.Or) else []
     want = ["is_for", "elt is not None and elt.stmts", "key is not None and key.stmts", "not PY3_15 and ends_with_unpack",
             "any((p.tag == 'do' or (p.value[1].stmts if p.tag in ('for', 'afor', 'setv') else p.value.stmts) for p in parts))"]
